@@ -254,6 +254,27 @@ func numericExpect(a, b string) (want int, ok bool) {
 	return 0, true
 }
 
+// equalLeadingRuns reports whether a and b both begin with digit runs of the
+// same numeric value, and returns what follows the runs.
+func equalLeadingRuns(a, b string) (ta, tb string, ok bool) {
+	isD := func(c byte) bool { return c >= '0' && c <= '9' }
+	ea, eb := 0, 0
+	for ea < len(a) && isD(a[ea]) {
+		ea++
+	}
+	for eb < len(b) && isD(b[eb]) {
+		eb++
+	}
+	if ea == 0 || eb == 0 {
+		return "", "", false
+	}
+	ra, rb := strings.TrimLeft(a[:ea], "0"), strings.TrimLeft(b[:eb], "0")
+	if len(ra) > 18 || ra != rb {
+		return "", "", false
+	}
+	return a[ea:], b[eb:], true
+}
+
 func checkNatPair(a, b string) *mc.Failure {
 	ab, ba := mstr.CompareNatural(a, b), mstr.CompareNatural(b, a)
 	if want, ok := numericExpect(a, b); ok && ab != want {
@@ -261,6 +282,14 @@ func checkNatPair(a, b string) *mc.Failure {
 	}
 	if ab < -1 || ab > 1 {
 		return mc.Failf(0, "CompareNatural(%q,%q)=%d is outside {-1,0,1}", a, b, ab)
+	}
+	// Runs are ordered by numeric value, so two leading runs of equal value
+	// decide nothing: the answer is that of the remainders (the comparison is
+	// documented as lexicographic over runs).
+	if ta, tb, ok := equalLeadingRuns(a, b); ok {
+		if rest := mstr.CompareNatural(ta, tb); ab != rest {
+			return mc.Failf(0, "CompareNatural(%q,%q)=%d although both begin with digit runs of equal value and the remainders compare (%q,%q)=%d", a, b, ab, ta, tb, rest)
+		}
 	}
 	if ab != -ba {
 		return mc.Failf(0, "CompareNatural(%q,%q)=%d but (%q,%q)=%d: not antisymmetric", a, b, ab, b, a, ba)
@@ -597,7 +626,7 @@ func main() {
 				r.Bound("alphabet", alpha)
 				r.Bound("strings", n)
 				r.Bound("triples_covered_by_the_rank_argument", int64(n)*int64(n)*int64(n))
-				r.Rule("complete relation matrix over all strings up to the bound: range, antisymmetry, 0 <=> equal after stripping leading zeros of digit runs, total preorder via rank consistency (equivalent to transitivity on the full cube), numeric order on embedded runs; non-trivial = distinct pairs comparing equal")
+				r.Rule("complete relation matrix over all strings up to the bound: range, antisymmetry, 0 <=> equal after stripping leading zeros of digit runs, total preorder via rank consistency (equivalent to transitivity on the full cube), numeric order on embedded runs, leading runs of equal value leave the answer to the remainders (CompareNatural of the tails); non-trivial = distinct pairs comparing equal")
 				r.Sample(ncase{A: "a01", B: "a1"})
 			},
 			Replay: func(c mc.Case) *mc.Failure {
